@@ -1,6 +1,6 @@
 #!/bin/bash
 # usage: seed_detect.sh <PROP> <mutant dir> [tier]   (applies the patch to /repo, runs the check, restores /repo)
-P=$1; M=$2; T=${3:-quick}
+P=$1; M=$(readlink -f "$2"); T=${3:-quick}
 cd /repo || exit 2
 git diff --quiet || { echo "repo dirty"; exit 2; }
 git apply $M/patch.diff || { echo "DETECT $P $M apply-failed"; exit 1; }
